@@ -129,6 +129,19 @@ func c05Holder(k sx) sx {
 		T("field", hs("Post"), A("true"), hs("post_not_in_schema"), hs(""), sib))
 }
 
+// c05HolderEmb: the field the schema names sits in an EMBEDDED struct that is not at offset 0, so
+// it is a promoted field of the holder; buildRecordCodec looks at direct fields only (the schema
+// field is skipped) - matching promoted fields would need the outer offset
+func c05HolderEmb(k sx) sx {
+	sib := T("array", I(8), T("uint", I(8)))
+	inner := T("struct", hs(""), hs(""), T("field", hs("A"), A("true"), hs("a"), hs(""), k))
+	return T("struct", hs("H"), hs(""),
+		T("field", hs("Pre"), A("true"), hs("pre_not_in_schema"), hs(""), sib),
+		T("field", hs("S"), A("true"), hs("s_not_in_schema"), hs(""), tInt(64)),
+		T("field", hs("EmbInner"), A("true"), hs("emb_not_in_schema"), hs(""), inner),
+		T("field", hs("Post"), A("true"), hs("post_not_in_schema"), hs(""), sib))
+}
+
 func genC05(c *ctx) {
 	c.emitf("(leaf)")
 	ctxs := []string{"alone", "ptr", "slice", "map", "nested", "nullable-ptr", "ptrptr"}
@@ -145,6 +158,9 @@ func genC05(c *ctx) {
 					wv = append(append([]byte(nil), wv...), 0x7e)
 					sch := sRecord("holder", avro.SchemaRecordField{Name: "a", Type: ws})
 					c.emit(T("tread", A(cx), A(s.name), c05Holder(wk), schemaSx(sch), H(wv)))
+					if ci == 0 {
+						c.emit(T("tread", A("embedded"), A(s.name), c05HolderEmb(wk), schemaSx(sch), H(wv)))
+					}
 				}
 			}
 		}
@@ -194,7 +210,7 @@ func genC05(c *ctx) {
 	kinds := c05Kinds()
 	n := c.scale(400, 8000)
 	for i := 0; i < n; i++ {
-		w := &wgen{rng: c.rng, maxDepth: 1 + c.rng.Intn(3)}
+		w := &wgen{rng: c.rng, maxDepth: 1 + c.rng.Intn(3), nullLeaves: true}
 		s := w.record(0)
 		v := w.value(s)
 		p := w.plan(s, v, c.rng.Intn(3) == 0)
